@@ -864,6 +864,80 @@ def _companion_rules_variant(repo, chk, rule, branch_rule, variant):
         raise ExtractError("%s: %s" % (rule, e))
 
 
+def manager_rules(repo, chk):
+    """R-C05-9 (T3, bounded to the two fixture models).  WNTRSimulator._get_control_managers and _register_controls_with_observers interpreted on a bare simulator
+    object holding the fixture model: (a) every control of the model is filed under exactly the managers its control type names (pre-solve: presolve and
+    pre-and-postsolve; post-solve: postsolve and pre-and-postsolve; rules; feasibility) -- a control filed nowhere is never checked, one filed in the wrong phase is
+    checked against the wrong state; (b) no manager holds a control of a type it is not meant for, and the managers together hold as many controls of each type as the
+    model and the four builders of internal controls supply; (c) every action of every filed control is observed by the change tracker (the re-solve loop of R-C05-1
+    relies on the tracker hearing of every change)."""
+    from ..concrete import Instance, ProgramError, Unsupported
+    from .c13 import model_world, build_fixture_model
+    gm = repo.func(CORE, "WNTRSimulator._get_control_managers")
+    ro = repo.func(CORE, "WNTRSimulator._register_controls_with_observers")
+    chk.fn(gm, ro)
+    ALLOWED = {"_presolve_controls": {"presolve", "pre_and_postsolve"}, "_postsolve_controls": {"postsolve", "pre_and_postsolve"}, "_rules": {"rule"},
+               "_feasibility_controls": {"feasibility"}}
+    for variant in ("A", "B"):
+        tagv = "" if variant == "A" else " [fixture variant %s]" % variant
+        world = model_world(repo)
+        I = world.interp
+        call = lambda o, m, *a, **k: I.call(I.getattr_(o, m), list(a), k)
+        try:
+            wn = build_fixture_model(repo, world, variant)
+            sim = Instance(world.function(CORE, "WNTRSimulator"))
+            I.raw_setattr(sim, "_wn", wn)
+
+            class _SourceChecker(object):
+                _sa_mock = True
+
+                def should_valve_be_opened(self, valve):
+                    return False
+
+                def register_control(self, control):
+                    pass
+            I.raw_setattr(sim, "_valve_source_checker", _SourceChecker())
+            for a_, v_ in (("_Htol", 1e-4), ("_Qtol", 1e-8)):
+                I.raw_setattr(sim, a_, v_)
+            I.getattr_(sim, "_get_control_managers")()
+            I.getattr_(sim, "_register_controls_with_observers")()
+            kind = lambda c: str(I.getattr_(c, "epanet_control_type")).split(".")[-1]
+            held = {m: list(I.iterate(I.getattr_(I.getattr_(sim, m), "_controls"))) for m in ALLOWED}
+            # (a) the model's own controls
+            for cname, control in list(call(wn, "controls")):
+                k = kind(control)
+                want = sorted(m for m, ok in ALLOWED.items() if k in ok)
+                got = sorted(m for m, cs in held.items() if any(c is control for c in cs))
+                chk.expect(got == want and bool(want), "R-C05-9", "control %r (%s) of the model is filed under the managers of its type%s" % (cname, k, tagv), loc(gm),
+                           "a control filed nowhere is never checked; one filed in the wrong phase is checked against the wrong state", expected=want, found=got)
+            # (b) nothing misfiled, nothing lost among the internal controls
+            supplied = [c for _n, c in list(call(wn, "controls"))]
+            for getter in ("_get_all_tank_controls", "_get_cv_controls", "_get_pump_controls", "_get_valve_controls"):
+                supplied += list(I.iterate(I.getattr_(sim, getter)()))
+            for m, ok in ALLOWED.items():
+                wrong = sorted({kind(c) for c in held[m]} - ok)
+                n_want = sum(1 for c in supplied if kind(c) in ok)
+                chk.expect(not wrong and len(held[m]) == n_want, "R-C05-9", "%s holds the %s controls the model and the builders of internal controls supply, and only those%s" % (
+                    m, " / ".join(sorted(ok)), tagv), loc(gm), expected="%d control(s) of type %s" % (n_want, sorted(ok)), found="%d held, foreign types %s" % (len(held[m]), wrong))
+            # (c) the change tracker observes every action of every filed control
+            tracker = I.getattr_(sim, "_change_tracker")
+            observed = list(I.getattr_(tracker, "_actions").keys())
+            missing = []
+            for m, cs in held.items():
+                for c in cs:
+                    for a in call(c, "actions"):
+                        if not any(a is o for o in observed):
+                            missing.append("%s in %s" % (str(c)[:60], m))
+            chk.expect(not missing, "R-C05-9", "the change tracker observes every action of every control the simulator checks%s" % tagv, loc(ro),
+                       "changes_made() decides whether a step is re-solved: an action the tracker does not observe changes the network without a re-solve",
+                       expected="all %d controls observed" % sum(len(v) for v in held.values()), found=missing[:4] or None)
+        except ProgramError as e:
+            chk.bad("R-C05-9", "the simulator files its controls on the fixture model%s" % tagv, loc(gm), "the repository's own code (interpreted) raised", found="%s (line %s)" % (e, e.lineno))
+        except Unsupported as e:
+            raise ExtractError("R-C05-9: %s" % e)
+    chk.floor("R-C05-9", 40)
+
+
 def run(repo, chk):
     rs = repo.func(CORE, "WNTRSimulator.run_sim")
     chk.fn(rs)
@@ -1197,6 +1271,9 @@ def run(repo, chk):
     chk.expect(table == wantt, "R-C05-5", "tank-level conditions are pre-and-post-solve, time conditions pre-solve, everything else post-solve", loc(CTRL, ci_),
                expected=wantt, found=table)
     chk.floor("R-C05-5", 2)
+
+    # ---------------------------------------------------------------- R-C05-9 every control is filed under the managers of its type and observed by the tracker
+    manager_rules(repo, chk)
 
     # ---------------------------------------------------------------- R-C05-8 companion status controls of setting / speed controls
     companion_rules(repo, chk)
@@ -1594,6 +1671,16 @@ def _conditional_control_facts(repo, ccf):
 
 
 WITNESSES = [
+    dict(name="tank-level-controls-not-checked-before-the-solve", file=CORE, old="            if control.epanet_control_type in {_ControlType.presolve, _ControlType.pre_and_postsolve}:\n",
+         new="            if control.epanet_control_type in {_ControlType.presolve}:\n", rule="R-C05-9"),
+    dict(name="check-valve-controls-never-filed", file=CORE, old="        for c in self._get_cv_controls():\n            categorize_control(c)\n", new="", rule="R-C05-9"),
+    dict(name="rules-not-observed-by-the-change-tracker", file=CORE, old="        for mgr in [self._presolve_controls, self._postsolve_controls, self._rules, self._feasibility_controls]:\n",
+         new="        for mgr in [self._presolve_controls, self._postsolve_controls, self._feasibility_controls]:\n", rule="R-C05-9"),
+    dict(name="managers-filled-from-a-type-table-preserving", file=CORE,
+         old="            if control.epanet_control_type in {_ControlType.presolve, _ControlType.pre_and_postsolve}:\n                self._presolve_controls.register_control(control)\n"
+             "            if control.epanet_control_type in {_ControlType.postsolve, _ControlType.pre_and_postsolve}:\n                self._postsolve_controls.register_control(control)\n",
+         new="            kind = control.epanet_control_type\n            if kind == _ControlType.presolve or kind == _ControlType.pre_and_postsolve:\n                self._presolve_controls.register_control(control)\n"
+             "            if kind in (_ControlType.pre_and_postsolve, _ControlType.postsolve):\n                self._postsolve_controls.register_control(control)\n", silent=True),
     dict(name="valve-companion-loses-the-priority", file=CORE, old="                        new_control = type(control)(condition, new_action, priority=control.priority)\n                    valve_controls.append(new_control)",
          new="                        new_control = type(control)(condition, new_action)\n                    valve_controls.append(new_control)", rule="R-C05-8"),
     dict(name="pump-companion-is-always-a-simple-control", file=CORE, old="                        new_control = type(control)(condition, new_action, priority=control.priority)\n                    pump_controls.append(new_control)",
